@@ -16,6 +16,20 @@ CHECKS = {
         "bound on n; networkx is the trusted base; skeletons are trees written parent->child",
         "DESIGN.md §3 C17",
     ),
+    "C09": (
+        "model_checking",
+        "explicit-state BFS over frame histories on the real Tracker (canonical-state dedup, invariants on every transition)",
+        "Breadth-first search over every frame history up to the depth bound (every ordered list of distinct animals per frame, incl. empty frames and low-score detections) for each tracker configuration, each transition executed by the real Tracker.track on a copy of the parent state; conservation invariants (no exception, output = inputs above threshold exactly once with a track, no shared track, queue ids within current_tracks) are evaluated on every transition. Exhaustive within the depth/K bound, so defects needing a specific history (first match to track 0, stale track after an absence, newcomer next to tracked animals) cannot hide.",
+        "bounds on depth/K/window; canonical-state merging validated in-run (merge validation + replay on fresh trackers); fixed animal positions; FlowShiftTracker out of scope",
+        "DESIGN.md §3 C09",
+    ),
+    "C10": (
+        "model_checking",
+        "explicit-state BFS over admissible frame histories on the real Tracker with an identity-map oracle",
+        "Every admissible history (the property's class, decided from the history alone) up to the frame bound, with every per-frame detection order and drifting positions, is executed on the real Tracker for each configuration; on every transition each animal must carry the track it first received and newcomers must get a never-held track. Exhaustive within bound.",
+        "bounds on frames/K/window; absence counted in frames; well-separated geometry fixed; merging validated by replay on fresh trackers",
+        "DESIGN.md §3 C10",
+    ),
 }
 
 NOT_YET = {}
